@@ -268,6 +268,12 @@ class Interp:
             cur = self.ev(_as_load(st.target), env)
             v = self.binop(st.op, cur, self.ev(st.value, env), st)
             if isinstance(st.target, ast.Name):
+                # `row = A[i]; row += x` with A an array of more dimensions than the index consumes: row is a view, the update is in
+                # place (recorded as an update of A[i]); otherwise the name is simply re-bound
+                if isinstance(cur, Sym) and cur.struct and cur.struct[0] == 'index' and isinstance(cur.struct[1], Sym) and \
+                        isinstance(cur.struct[1].attrs.get('__ndim__'), int) and _index_rank(cur.struct[2]) < cur.struct[1].attrs['__ndim__']:
+                    self.path.events.append(('augitem', cur.struct[1], cur.struct[2], type(st.op).__name__, self.ev(st.value, env)))
+                    return
                 env.set(st.target.id, v)
             elif isinstance(st.target, ast.Subscript):
                 base = self.ev(st.target.value, env)
@@ -809,6 +815,12 @@ class Interp:
                 return _BUILTIN_FUNCS[nm](self, args, kwargs)
             if nm == 'functools.partial' and args:
                 return BoundCall(args[0], args[1:], kwargs)
+            if nm.split('.')[-1] in ('zeros', 'empty', 'ones', 'full') and nm.split('.')[0] in ('numpy', 'np') and (args or 'shape' in kwargs):
+                shp = kwargs.get('shape', args[0] if args else None)
+                self.path.events.append(('call', nm, tuple(args), dict(kwargs)))
+                nd_ = len(shp) if isinstance(shp, (tuple, list)) else (1 if isinstance(shp, (int, Sym)) and not (isinstance(shp, Sym) and shp.length) else (shp.length if isinstance(shp, Sym) else None))
+                return Sym('%s(%s)' % (nm, ', '.join([show(a) for a in args] + ['%s=%s' % (k, show(v)) for k, v in kwargs.items()])), attrs={'__ndim__': nd_},
+                           struct=('call', nm, tuple(args), dict(kwargs), f))
             if nm in _OPERATOR and len(args) == 2 and not kwargs:
                 return self.binop(_OPERATOR[nm](), args[0], args[1], node)
             if nm in ('functools.reduce', 'reduce') and len(args) in (2, 3) and not kwargs:
@@ -837,6 +849,12 @@ def _fresh(v):
     if isinstance(v, dict):
         return {k: _fresh(x) for k, x in v.items()}
     return v
+
+
+def _index_rank(key):
+    """number of axes an index consumes (integers and symbols; slices and new axes consume none)"""
+    key = key if isinstance(key, tuple) else (key,)
+    return sum(1 for k in key if not isinstance(k, slice) and k is not None and k is not Ellipsis and not (isinstance(k, Sym) and k.text.endswith('newaxis')))
 
 
 def _true_or_unknown(unknown, last):
